@@ -1015,13 +1015,14 @@ func (e *Engine) convert(st *State, fr *Frame, x *ssa.Convert) Val {
 	}
 	// string <-> []byte and friends
 	if _, ok := to.(*types.Slice); ok && fok && fb.Info()&types.IsString != 0 {
-		v := e.freshVal(st, x.Type(), "bytes")
-		st.assume(mkEq(v.L[2], mkApp("strlen", a.term())))
-		st.assume(mkNot(mkEq(v.L[0], "nil")))
 		e.smt.Declare("bytesof", []string{SU}, SU)
-		st.assume(mkEq(v.L[0], mkApp("bytesof", a.term())))
-		st.assume(mkEq(v.L[1], "0"))
-		return v
+		base := mkApp("bytesof", a.term())
+		st.assume(mkNot(mkEq(base, "nil")))
+		ln := mkApp("strlen", a.term())
+		if sv, ok := e.strVals[a.term()]; ok {
+			ln = mkInt(int64(len(sv)))
+		}
+		return Val{T: x.Type(), L: []string{base, "0", ln, ln}}
 	}
 	if _, ok := from.(*types.Slice); ok && tok && tb.Info()&types.IsString != 0 {
 		e.smt.Declare("stringof", []string{SU, SInt, SInt}, SU)
@@ -1331,6 +1332,9 @@ func (e *Engine) recvFacts(st *State, ch Val, okT string) {
 func (e *Engine) execGo(st *State, fr *Frame, x *ssa.Go) {
 	callee, args := e.callOperands(st, fr, &x.Call)
 	name := e.calleeName(&x.Call, callee)
+	if x.Call.IsInvoke() {
+		args = append([]Val{callee}, args...)
+	}
 	sv := map[string]Val{"$callee": callee}
 	for i, a := range args {
 		sv[fmt.Sprintf("$%d", i)] = a
@@ -1340,7 +1344,11 @@ func (e *Engine) execGo(st *State, fr *Frame, x *ssa.Go) {
 	st.spawned = true
 	// contract preconditions of the spawned function are checked like a call
 	if c := e.contractFor(name); c != nil && !c.Extern {
-		e.checkRequires(st, fr, c, e.fnOf(callee, &x.Call), args, x.Pos(), "go")
+		tf := e.fnOf(callee, &x.Call)
+		if tf == nil {
+			tf = e.fns[c.Func]
+		}
+		e.checkRequires(st, fr, c, tf, args, x.Pos(), "go")
 	}
 	// cells reachable by the goroutine become shared: havoc those it may write
 	e.escapeClosure(st, callee, map[*ssa.Function]bool{})
